@@ -156,6 +156,14 @@ func gen(g *vh.Gen) {
 	g.Emit("tls", "xP,o0:P,p0:pass,k,DP,f0,DP")
 	g.Emit("tls", "o0:P,p0:dele,xP,xP,k,nP,DP,f0,DP,DS")
 	g.Emit("tls", "xP,k,DP")
+	// one pass cancelled just before the k-th mailbox: the callback that is running notices, no further mailbox is visited
+	for _, c := range [][3]int{{40, 0, 0}, {40, 0, 7}, {40, 0, 39}, {40, 40, 5}, {40, 3, 10}, {25, 12, 4}, {10, 0, 10}} {
+		g.Emit("scan", fmt.Sprint(c[0]), fmt.Sprint(c[1]), fmt.Sprint(c[2]))
+	}
+	for i := 0; i < g.N(3, 200); i++ {
+		n := 5 + g.Intn(60)
+		g.Emit("scan", fmt.Sprint(n), fmt.Sprint(g.Intn(n+1)), fmt.Sprint(g.Intn(n+2)))
+	}
 	g.Emit("ret", "1h", "30", "pre")
 	g.Emit("ret", "1h", "30", "mid")
 	g.Emit("ret", "1h", "3", "none")
